@@ -26,7 +26,7 @@ func families(tier string) []fw.Family {
 			familyToPath(fmt.Sprintf("text to paths: %d strings of at most 4 tokens x 3 fonts x 2 faces", len(strs)), strs),
 			familyRenderAsPath(fmt.Sprintf("RenderAsPath: %d strings of at most 4 tokens x 3 fonts x %d layouts", len(strs), len(kinds)), strs),
 			familySingle(fmt.Sprintf("PDF, one text: %d strings of at most 4 tokens x 3 fonts x %d layouts x SubsetFonts on/off", len(strs), len(kinds)), strs, allKinds(), both),
-			familySingle(fmt.Sprintf("PDF, ToUnicode ranges and W ranges: %d strings over {a,b,c} and digit runs x 3 fonts x NewTextLine x SubsetFonts on/off", len(rangeStrings())), rangeStrings(), []int{kindLine}, both),
+			familySingle(fmt.Sprintf("PDF, ToUnicode ranges and W ranges: %d strings over {a,b,c}, digit runs and all pairs of consecutive code points (ASCII, Latin-1 letters) x 3 fonts x NewTextLine x SubsetFonts on/off", len(rangeStrings())), rangeStrings(), []int{kindLine}, both),
 			familyPairs("PDF, two texts", pairStrings, both),
 			familyReuse("PDF, one font object for two documents in a row", pairStrings),
 		}
@@ -43,7 +43,7 @@ func families(tier string) []fw.Family {
 		familySingle(fmt.Sprintf("PDF, one text, SubsetFonts on: %d strings of at most 3 tokens x 3 fonts x %d layouts", len(strs), len(kinds)), strs, allKinds(), []bool{true}),
 		familySingle(fmt.Sprintf("PDF, one text, SubsetFonts off: %d strings of at most 2 tokens x 3 fonts x %d layouts", len(strs2), len(kinds)), strs2, allKinds(), []bool{false}),
 		familySingle(fmt.Sprintf("PDF, one text, SubsetFonts off: %d strings of 3 tokens x 3 fonts x {NewTextLine Left, NewTextBox justified}", len(exactly3)), exactly3, []int{kindLine, kindJustified}, []bool{false}),
-		familySingle(fmt.Sprintf("PDF, ToUnicode ranges and W ranges: %d strings over {a,b,c} and digit runs x 3 fonts x NewTextLine x SubsetFonts on/off", len(rangeStrings())), rangeStrings(), []int{kindLine}, both),
+		familySingle(fmt.Sprintf("PDF, ToUnicode ranges and W ranges: %d strings over {a,b,c}, digit runs and all pairs of consecutive code points (ASCII, Latin-1 letters) x 3 fonts x NewTextLine x SubsetFonts on/off", len(rangeStrings())), rangeStrings(), []int{kindLine}, both),
 		familyPairs("PDF, two texts", pairStrings[:3], both),
 		familyReuse("PDF, one font object for two documents in a row", pairStrings[:3]),
 	}
@@ -54,7 +54,17 @@ func families(tier string) []fw.Family {
 // consecutive codes of one width (the "first last width" groups of the W array).
 func rangeStrings() []string {
 	out := stringsUpTo([]string{"a", "b", "c"}, 3)[1:]
-	return append(out, "0123456", "a0123456b", "01234567x89", "x0123456", "abc0123456", "AV0123456é", "....... ", "iiiiiii")
+	out = append(out, "0123456", "a0123456b", "01234567x89", "x0123456", "abc0123456", "AV0123456é", "....... ", "iiiiiii")
+	// every pair of consecutive code points of printable ASCII and of the Latin-1 letters: their
+	// glyph ids are consecutive in some fonts and far apart in others (ToUnicode bfrange merging
+	// must follow the codes, not only the characters)
+	for c := rune(0x21); c < 0x7E; c++ {
+		out = append(out, string([]rune{c, c + 1}))
+	}
+	for c := rune(0xC0); c < 0xFF; c++ {
+		out = append(out, string([]rune{c, c + 1}))
+	}
+	return out
 }
 
 func caseMatches(re string) func(*fw.Violation) bool {
